@@ -1617,3 +1617,31 @@ def body_file_rule(run, R="INC"):
                 bad.append("%s evaluates the stored body `%s` under the context of its user" % (f.id, ex[:70]))
     run.check(n >= 2 and not bad, R, R + "|body-file", "-", "stored rule productions and function bodies are evaluated under a context that names their own file (%d site(s))" % n,
               "%s: a relative file name inside the body (incbin / incbinstr / inchexstr) would be resolved relative to the file that uses the rule or calls the function" % ("; ".join(bad) or "evaluations of stored bodies not found"))
+
+
+def listing_reads_within_span(run, R="MPT"):
+    """the data column of a listing row shows the row's own bits: every bit read for a row's digits is behind a test that the bit
+    lies inside the row's span (`< span.size`); the last digit of an item whose size is not a multiple of the digit width is padded,
+    not completed with bits of the item that follows"""
+    n, bad = 0, []
+    for f in run.prog.real_fns():
+        if f.kind != "AssocFn" or not re.search(r"::format_(annotated|tcgame)$", f.id):
+            continue
+        for bi, t in f.calls():
+            if not (t.get("resolved") or t.get("callee") or "").endswith("bitvec::BitVec::read_bit"):
+                continue
+            n += 1
+            guarded = False
+            for b in f.dominators().get(bi, ()):
+                tt = f.blocks[b]["term"]
+                if tt["k"] != "switch" or b == bi or op_local(tt["discr"]) is None:
+                    continue
+                o = f.origin_local(op_local(tt["discr"]))
+                if o and o[0] == "binop" and o[1]["op"] in ("Lt", "Le", "Gt", "Ge"):
+                    l, r = _deep(f, o[1]["l"], 6), _deep(f, o[1]["r"], 6)
+                    if (l.endswith(".size") or r.endswith(".size")) and any(f.edge_dominates(b, e, bi) for e in f.succs(b)):
+                        guarded = True
+            if not guarded:
+                bad.append(f.loc(t["span"]))
+    run.check(n >= 2 and not bad, R, R + "|listing|reads-within-span", "-", "the listings read a row's bits only inside the row's span (%d read site(s))" % n,
+              "a listing reads bits for a row's digits without testing that they lie inside the row's span (%s): with a digit width that does not divide the item size (`base:8` and 8-bit items) the last digit of a row includes bits of the next item" % (", ".join(bad) or "read sites not found"))
